@@ -22,7 +22,7 @@ impl Suite {
         let mut u = vec![];
         for &k in &self.kinds {
             for &l in &self.lens {
-                if matches!(k, KindId::OArray | KindId::ArrayRef | KindId::ClonedArrayRef | KindId::OArray24) && l > 6 {
+                if matches!(k, KindId::OArray | KindId::ArrayRef | KindId::ClonedArrayRef | KindId::OArray24 | KindId::OArrayBox) && l > 6 {
                     continue;
                 }
                 u.push((k, l, None));
@@ -35,14 +35,14 @@ impl Suite {
     }
 }
 
-pub const MAIN: [&str; 15] = ["N", "I", "C2:a", "C3:1", "C1:0", "HC2", "HN1", "HD", "BN2", "BXa", "BX1", "BD", "S", "EF2", "V"];
+pub const MAIN: [&str; 16] = ["N", "I", "C2:a", "C3:1", "C1:0", "HC2", "HN1", "HD", "BN2", "BXa", "BX1", "BD", "S", "EF2", "V", "CMx:1"];
 
 fn kinds_where(f: impl Fn(&crate::exec::KindInfo) -> bool) -> Vec<KindId> {
     ALL_KINDS.iter().copied().filter(|k| f(&k.info())).collect()
 }
 fn small_kinds() -> Vec<KindId> {
     // every kind except the element-size variants
-    ALL_KINDS.iter().copied().filter(|k| !matches!(k, KindId::OVec24 | KindId::OArray24 | KindId::Iter24 | KindId::RangeX)).collect()
+    ALL_KINDS.iter().copied().filter(|k| !matches!(k, KindId::OVec24 | KindId::OArray24 | KindId::Iter24 | KindId::OVecBox | KindId::OArrayBox | KindId::IterBox | KindId::RangeX)).collect()
 }
 
 pub fn suite(name: &str, thorough: bool) -> Suite {
@@ -54,13 +54,15 @@ pub fn suite(name: &str, thorough: bool) -> Suite {
     match name {
         "main" | "C04" | "C17" => {
             if name == "C04" {
-                s.alphabet = alphabet(&["N", "I", "C2:a", "C3:1", "C1:0", "HC2", "HN1", "HD", "BN2", "BXa", "BX1", "BD", "S", "EF2", "V", "W", "FE1", "FO2"]);
+                s.alphabet = alphabet(&["N", "I", "C2:a", "C3:1", "C1:0", "HC2", "HN1", "HD", "BN2", "BXa", "BX1", "BD", "S", "EF2", "V", "W", "FE1", "FO2", "CMx:1"]);
                 s.depth = if thorough { 5 } else { 4 };
             }
             if name == "C17" {
                 s.kinds = ALL_KINDS.iter().copied().filter(|k| *k != KindId::RangeX).collect();
                 s.depth = if thorough { 5 } else { 4 };
                 s.terms = vec![Term::Drop, Term::Seq(ALL), Term::Seq(1), Term::Seq(0)];
+                s.allow_zero = true;
+                s.alphabet = alphabet(&["N", "I", "C2:a", "C3:1", "C1:0", "HC2", "HN1", "HD", "BN2", "BXa", "BX1", "BD", "S", "EF2", "V", "CMx:1", "BN0", "FE0", "FO0", "C0:a"]);
             }
         }
         "C03" => {
@@ -69,14 +71,14 @@ pub fn suite(name: &str, thorough: bool) -> Suite {
             s.terms = vec![Term::Drop, Term::Seq(ALL)];
         }
         "C05" => {
-            s.alphabet = alphabet(&["N", "I", "C2:a", "C3:1", "CL1:0", "BN2", "BXa", "BX1", "BD", "EF2", "FE1", "V", "FO3", "L"]);
+            s.alphabet = alphabet(&["N", "I", "C2:a", "C3:1", "CL1:0", "BN2", "BXa", "BX1", "BD", "EF2", "FE1", "V", "FO3", "L", "S"]);
             s.terms = vec![Term::Drop, Term::Seq(ALL)];
         }
         "C06" => {
-            s.alphabet = alphabet(&["S", "N", "I", "C2:a", "C3:1", "BN2", "BXa", "BX1", "BD", "HC2", "HN1", "HD", "EF2", "H"]);
+            s.alphabet = alphabet(&["S", "N", "I", "C2:a", "C3:1", "BN2", "BXa", "BX1", "BD", "HC2", "HN1", "HD", "EF2", "H", "CMx:a", "CHp1:1"]);
         }
         "C08" => {
-            s.kinds = kinds_where(|k| k.consuming);
+            s.kinds = kinds_where(|k| k.consuming).into_iter().filter(|k| !matches!(k, KindId::OVecBox | KindId::OArrayBox | KindId::IterBox | KindId::OVec24 | KindId::OArray24 | KindId::Iter24)).collect();
             s.terms = vec![Term::Drop, Term::Seq(ALL), Term::Seq(1), Term::Seq(0)];
         }
         "C15" => {
@@ -85,7 +87,7 @@ pub fn suite(name: &str, thorough: bool) -> Suite {
             s.depth = if thorough { 5 } else { 4 };
         }
         "C10" => {
-            s.alphabet = alphabet(&["N", "I", "C2:a", "C3:1", "CL1:a", "C1:0", "HC2", "HN1", "HD", "BN2", "BN3", "BXa", "BX1", "BD", "S", "EF2"]);
+            s.alphabet = alphabet(&["N", "I", "C2:a", "C3:1", "CL1:a", "C1:0", "HC2", "HN1", "HD", "BN2", "BN3", "BXa", "BX1", "BD", "S", "EF2", "CMx:1", "CHp1:a"]);
             s.terms = vec![Term::Seq(ALL), Term::Seq(1)];
             s.depth = if thorough { 5 } else { 4 };
         }
@@ -94,7 +96,7 @@ pub fn suite(name: &str, thorough: bool) -> Suite {
             s.terms = vec![Term::Drop];
         }
         "C12" => {
-            s.alphabet = alphabet(&["FE1", "FE2", "FE3", "EF1", "EF2", "EF3", "FO1", "FO2", "FO3", "N", "C2:1", "BN2", "BX1", "S"]);
+            s.alphabet = alphabet(&["FE1", "FE2", "FE3", "EF1", "EF2", "EF3", "FO1", "FO2", "FO3", "N", "C2:1", "BN2", "BX1", "S", "FEMx", "EFHp1", "FOMx"]);
             s.terms = vec![Term::Drop, Term::Seq(ALL)];
             s.depth = if thorough { 5 } else { 4 };
         }
@@ -126,14 +128,14 @@ pub fn suite(name: &str, thorough: bool) -> Suite {
             s.mode = Mode::LowLevel;
             s.kinds = vec![KindId::OVec, KindId::OArray];
             s.lens = vec![1, 2, 3];
-            s.alphabet = alphabet(&["N", "C2:a", "BN2", "BXa", "S", "F1", "FN2", "PR1", "PR2", "EE", "CA1", "CI", "GET0", "GET1", "GETL0", "CS0", "CS1", "CSL0"]);
+            s.alphabet = alphabet(&["N", "C2:a", "BN2", "BXa", "S", "F1", "FN2", "PR1", "PR2", "EE", "CA1", "CI", "CMx:a", "FNMx", "GET0", "GET1", "GETL0", "CS0", "CS1", "CSL0"]);
             s.depth = if thorough { 4 } else { 3 };
             s.terms = vec![Term::Drop, Term::Seq(ALL)];
         }
         "C19" => {
             s.mode = Mode::Multi;
             s.kinds = vec![KindId::Slice, KindId::VecRef, KindId::ArrayRef, KindId::Range5];
-            s.alphabet = alphabet(&["N", "I", "C2:a", "C3:1", "BN2", "S", "NI", "CL", "SEL0", "SEL1", "SEL2"]);
+            s.alphabet = alphabet(&["N", "I", "C2:a", "C3:1", "BN2", "BN3", "S", "NI", "CL", "SEL0", "SEL1", "SEL2", "CMx:1"]);
             s.depth = if thorough { 6 } else { 5 };
             s.terms = vec![Term::Drop, Term::Seq(ALL)];
         }
